@@ -44,6 +44,8 @@ def plan(ctx):
         shards.append(('doc', prof, n, i))
     shards.append(('doc', 'flat', ctx.pick(25, 600), 16))
     shards.append(('doc', 'wide', ctx.pick(150, 3000), 17))
+    shards.append(('doc', 'longbracket', ctx.pick(12, 300), 18))
+    shards.append(('doc', 'longbrace', ctx.pick(12, 300), 19))
     return [('shard_corpus', [('corpus',)]), ('shard_docs', shards),
             ('shard_deep', [('deep', i, 8) for i in range(8)])]
 
@@ -94,6 +96,15 @@ def corpus(repo):
                 lit = re.sub(r'(?m)^[ \t]*\.\.\. ?', '', lit)       # doctest continuation prefixes
                 if '\\' in lit or '$' in lit:
                     out.append(('literal:' + os.path.basename(path), lit))
+    # long single constructs (a paragraph that is one text run, a long comment, a long blank run) and long documents
+    prose = 'The quick brown fox, 42 times; jumps (over) the lazy dog. '
+    for n in (300, 513, 1030, 2050, 4100, 8200):
+        para = (prose * (n // len(prose) + 1))[:n]
+        out.append(('synthetic:paragraph-%d' % n, '\\section{T}\n' + para + '\n\\emph{' + para + '}\n\\begin{e}' + para + '\\end{e}'))
+        out.append(('synthetic:comment-%d' % n, 'a %' + para + '\nb {c%' + para + '\n} d'))
+        out.append(('synthetic:blanks-%d' % n, '\\begin{e}' + ' ' * n + 'a' + '\t' * n + '\n' + ' ' * n + 'b\\end{e}'))
+    for n in (9000, 33000, 70000):
+        out.append(('synthetic:document-%d' % n, D.big_source(n)))
     return out
 
 
